@@ -268,6 +268,8 @@ func (g *G) NodeList() *sbom.NodeList {
 		}
 		nl.Edges = append(nl.Edges, e)
 	}
+	// nodes are stored in no particular order
+	g.R.Shuffle(len(nl.Nodes), func(i, j int) { nl.Nodes[i], nl.Nodes[j] = nl.Nodes[j], nl.Nodes[i] })
 	nr := g.R.Intn(4)
 	for i := 0; i < nr; i++ {
 		nl.RootElements = append(nl.RootElements, g.id(g.R.Intn(n)))
